@@ -25,7 +25,8 @@ def run(tier):
               "scenario is validated as a behaviour of that state machine (RecursiveTrace; the unlogged internal steps "
               "and orders are inferred by TLC). An evaluation is one resolution.")
     v.assumptions = ["universes are consistent: every NS host resolvable without a cycle, glue equal to the authoritative "
-                     "addresses, all servers of a zone identical, every host dual-stack (so every zone is reachable)",
+                     "addresses, all servers of a zone identical, every zone reachable in the configured mode (hosts "
+                     "dual-stack, or single-family hosts with prefer-v4 / prefer-v6)",
                      "record sets expire as a whole (one TTL per set, RFC 2181 5.2); name-server address records may "
                      "expire before the NS records that name them"]
     wd = workdir("c07")
@@ -34,10 +35,14 @@ def run(tier):
     n = 60 if tier == "quick" else 1500
     scs = uc.universe_scenarios(r_, wd, n, [1, 2, 2, 3, 3, 4, 5], "dual", ["only-v4", "prefer-v4", "prefer-v6", "only-v6"],
                                 True, nq=(2, 5))
+    # name servers with addresses of one family only, in the modes that may fall back to the other family: every
+    # zone stays reachable, so the authoritative answer is still expected
+    scs += uc.universe_scenarios(r_, wd, max(20, n // 3), [2, 2, 3, 4], "mixed", ["prefer-v4", "prefer-v6"], True, nq=(2, 4),
+                                 glue=r_.choice(["mixed", "out"]))
     scs += uc.glue_expiry_scenarios(r_, wd, 16 if tier == "quick" else 300)
     lines, rejects = rc.run_scenarios(v, PID, wd, "tv", scs, chunk=40)
-    rec.model_check(v, PID, wd, r_, tier)
     rec.conformance(v, wd, lines)
+    rec.explore(v, PID, wd, r_, tier)
     kinds = {}
     nex = 0
     for ln in lines:
